@@ -12,7 +12,7 @@ from harness import synthprog as sp
 from harness.common import MachineryError
 
 DRIVER = 'drivers/c20_build.py'
-ACTIONS = ('Begin', 'Acquire', 'SetCtx', 'Create1', 'Create2', 'Check', 'ClearOk', 'ClearFail', 'Release', 'Orphan')
+ACTIONS = ('Annotate', 'Begin', 'Acquire', 'SetCtx', 'Create1', 'Create2', 'Check', 'ClearOk', 'ClearFail', 'Release', 'Orphan')
 
 
 def fail_variants(prog, rnd):
@@ -119,6 +119,14 @@ def seq_scenario(rnd, sid, progs, variants, special=None):
             steps.append(dict(k='probe'))
             steps.append(dict(k='build', prog=progs[i], key='k%d' % i))
         elif x < 0.9:
+            # in-place use of a finished definition's public variants / metadata dictionaries, then the same program
+            # and another one again: their bytes must not move
+            steps.append(dict(k='build', prog=progs[i], key='k%d' % i))
+            steps.append(dict(k='annotate', n=rnd.randint(0, 50)))
+            steps.append(dict(k='build', prog=progs[i], key='k%d' % i))
+            j = rnd.randrange(len(progs))
+            steps.append(dict(k='build', prog=progs[j], key='k%d' % j))
+        elif x < 0.93:
             steps.append(dict(k='junk', n=rnd.randint(100, 5000)))
         elif x < 0.95:
             steps.append(dict(k='desc', prog=progs[i]))
@@ -187,6 +195,7 @@ def run(ctx):
     ctx.expect_ok(r, 'Build protocol')
     for cfg, inv in (('Build_noclear.cfg', 'NoResidue'), ('Build_noreadclear.cfg', 'NoResidue'),
                      ('Build_ctxearly.cfg', 'Isolation'), ('Build_clearlate.cfg', 'Isolation'),
+                     ('Build_sharedextras.cfg', 'Deterministic'),
                      ('Build_nolock.cfg', 'Deterministic')):
         r = ctx.model_check('Build', cfg, timeout=600, label='crippled protocol must violate ' + inv)
         if inv not in r.violated:
@@ -215,6 +224,9 @@ def run(ctx):
                   + [dict(k='build', prog=variants[i][kind], key='k%d!%s' % (i, kind))
                      for i in range(len(progs)) for kind in ('func', 'late', 'check', 'write')] + [dict(k='probe')]
                   + [dict(k='build', prog=p, key='k%d' % i) for i, p in enumerate(progs)]      # rebuild everything
+                  + [st for i, p in enumerate(progs) for st in (dict(k='build', prog=p, key='k%d' % i),
+                                                                 dict(k='annotate', n=i))]      # annotate every one
+                  + [dict(k='build', prog=p, key='k%d' % i) for i, p in enumerate(progs)]      # and rebuild again
                   + [st for how in HOWS_OBJ for st in (dict(k='use', prog=progs[0], key='k0', how=how, variant='valid'),
                                                        dict(k='probe'),
                                                        dict(k='use', prog=special['unknown'], key='unknown', how=how,
